@@ -27,7 +27,7 @@ ASSUMPTIONS = [
     'secondary/supplementary alignments are dropped by the mate-pairing library and are outside the claim (generated only to check they do not disturb the rest)',
     'identity of a record = unique cluster coordinate of its read name (the tagger rewrites encoded names by design; that decoding is C04)',
     'mate number is compared only for fragments whose two mates are both present in the input',
-    'SimPool runs task bodies atomically in-process with pickled arguments/results; module globals are shared between simulated workers',
+    'SimPool runs task bodies atomically in-process with pickled arguments/results; module globals are shared between simulated workers; ~1.5% of the cases are also run through the real fork-based multiprocessing.Pool (probe real_pool_crosscheck) with the same oracle, as a fidelity check of the stub',
     'no samtools binary exists in the sandbox: the pysam branches of merge/re-header are the ones exercised',
     'invalid fragment (removed by --no_rejects) = R1 absent/unmapped, pre-set qc-fail, or (nla) R1 without CATG: generator label, cross-checked against the default run',
 ]
@@ -76,6 +76,9 @@ def generate(seed, tier):
              {'mp': True, 'name': 'multi', 'width': s.randint(1, 4), 'schedule': {'policy': 'seeded'}, 'seed': seed}]
     if (w.random() < 0.5 or force_nr) and method != 'qflag':   # qflag writes all reads by design (--no_rejects is overridden)
         modes += [dict(m, no_rejects=True, name=m['name'] + '/no_rejects') for m in modes]
+    if s.random() < 0.015:
+        # stub fidelity: the same input through the real fork-based multiprocessing.Pool (its schedule is not controlled; the oracle is the same)
+        modes.append({'mp': True, 'name': 'multi/realpool', 'width': s.randint(2, 4), 'real_pool': True})
     return {'params': params, 'genome': genome, 'workload': frags, 'modes': modes}
 
 
@@ -125,7 +128,18 @@ def execute(case):
         outs = {}
         for mi, mode in enumerate(case['modes']):
             name = mode['name']
-            o = tc.run_mode(d, case, mode, f'm{mi}', in_bam=in_bam)
+            if mode.get('real_pool'):
+                # observational fidelity check: forking real workers from a process that already runs htslib helper threads can dead-lock;
+                # that is not a property verdict and must not fail the check
+                try:
+                    o = tc.run_mode(d, case, mode, f'm{mi}', in_bam=in_bam, timeout=45)
+                except RuntimeError:
+                    probe('real_pool_crosscheck_timed_out')
+                    log.add('mode', name, 'timeout')
+                    traces.append([])
+                    continue
+            else:
+                o = tc.run_mode(d, case, mode, f'm{mi}', in_bam=in_bam)
             outs[name] = o
             res = o['res']
             steps += res.get('sched_steps', 0)
@@ -133,6 +147,8 @@ def execute(case):
             traces.append(res.get('schedule_trace', []))
             order = (res.get('pool_orders') or [[]])[0] if res.get('pool_orders') else []
             njobs = len(res.get('jobs', []))
+            if mode.get('real_pool'):
+                probe('real_pool_crosscheck')
             if mode.get('mp'):
                 probe('multiprocess_lifetime')
                 if order != sorted(order):
@@ -154,7 +170,7 @@ def execute(case):
                 continue
             log.add('out', name, len(recs))
             # per-job exactly-once ownership (observed before the merge)
-            if mode.get('mp'):
+            if mode.get('mp') and not mode.get('real_pool'):
                 owner = collections.Counter()
                 for j in res.get('jobs', []):
                     for (c, s, e, fs, fe) in j['regions']:
@@ -222,7 +238,7 @@ def execute(case):
 
 def make_explicit(case, out):
     c = dict(case)
-    c['modes'] = [dict(m, schedule={'policy': 'explicit', 'decisions': tr}) if m.get('mp') else dict(m)
+    c['modes'] = [dict(m, schedule={'policy': 'explicit', 'decisions': tr}) if (m.get('mp') and not m.get('real_pool')) else dict(m)
                   for m, tr in zip(case['modes'], out['schedule_traces'])]
     return c
 
